@@ -32,7 +32,10 @@ RULE = ("history = one cell space (OrthogonalMooreGrid / OrthogonalVonNeumannGri
         "with conditions / extreme_values / masks in list and mask form, get_neighborhood_mask, aggregate, layer select_cells, reading grid.empty.data: "
         "no-ops in the model, full view before == after in the oracle), 'probe' points where the driver issues every kind of call that must be rejected in the state reached (C18 fault enumeration), "
         "and - in 12 % of the histories, in their second half - direct cell.add_agent / remove_agent calls (model and correspondence only; the "
-        "oracle stops judging a history at its first direct call). The whole state view is observed after every operation; at the end the "
+        "oracle stops judging a history at its first direct call). SCALE stream (5 cases per quick run, 60 thorough, 40 in the broken-tie enumerator): one "
+        "cell filled (op Fill, run-length encoded agent kinds) with 100..513 agents crossing 128/129/256/257/512, then moves out, removals, un-placing, "
+        "re-adds, arrivals, stepwise emptying, refills, on small spaces with the model and on 40x40 / 33x31 / 20x20 grids and a 300-node network without it; "
+        "all_cells[cell] and the cached neighbourhood agents of every (sampled) cell are compared as well. The whole state view is observed after every operation; at the end the "
         "constructor arguments (graph, points, dimensions) must be unchanged. "
         "non-trivial = at least 3 operations of which one was rejected or a removal happened; distinct = by SHA1 of the history")
 TRUSTED_BASE = [
@@ -119,6 +122,8 @@ def _rand_space(rng):
         dims = list(rng.choice([(1, 1), (2, 2), (2, 3), (3, 3), (4, 4), (2, 4), (4, 2)]))
         return {"type": t, "dims": dims, "torus": rng.random() < 0.5, "capacity": cap}
     if t == "network":
+        if rng.random() < 0.04:
+            cap = "npi3"
         if rng.random() < 0.5:
             return {"type": t, "graph": rng.choice(GRAPHS), "capacity": cap}
         n = rng.randint(1, 9)
@@ -395,8 +400,67 @@ def _corner_cases():
     return out
 
 
+_CROWDS = [100, 127, 128, 129, 130, 255, 256, 257, 300, 513]
+
+
+def _scale_case(rng, big=False):
+    """SCALE stream: one cell holding hundreds of agents (crossing 100 / 128 / 129 / 256 / 257 / 512), then moves out, removals,
+    un-placing, re-adds, new arrivals, with every view compared; `big` = a space with hundreds of cells as well (no model run)"""
+    crowd = rng.choice(_CROWDS)
+    extra = rng.randint(3, 12)
+    if big:
+        sp = rng.choice([
+            {"type": "moore", "dims": [40, 40], "torus": rng.random() < 0.5, "capacity": rng.choice([None, "big", 1000])},
+            {"type": "vonneumann", "dims": [33, 31], "torus": False, "capacity": None},
+            {"type": "hex", "dims": [20, 20], "torus": False, "capacity": rng.choice([None, 300])},
+            {"type": "network", "graph": {"nodes": list(range(300)), "edges": [[k, (k + 1) % 300] for k in range(300)] + [[k, (k * 7) % 300] for k in range(0, 300, 5)]},
+             "capacity": None},
+        ])
+    else:
+        sp = rng.choice([
+            {"type": "moore", "dims": [2, 2], "torus": False, "capacity": rng.choice([None, None, "big", 1000, crowd + 2])},
+            {"type": "moore", "dims": [5, 5], "torus": True, "capacity": None},
+            {"type": "vonneumann", "dims": [3], "torus": True, "capacity": rng.choice([None, crowd])},
+            {"type": "hex", "dims": [2, 3], "torus": False, "capacity": None},
+            {"type": "network", "graph": GRAPHS[rng.choice([2, 3, 5])], "capacity": rng.choice([None, crowd + 1])},
+            {"type": "voronoi", "points": rng.choice(VORONOI_POINTS), "capacity": None, "caps": [None]},
+        ])
+    ncells = _n_cells(sp)
+    two_d = sp["type"] in ("moore", "vonneumann", "hex") and len(sp["dims"]) == 2
+    base = "grid2d" if two_d and rng.random() < 0.5 else "cell"
+    kinds = [base] * crowd + [rng.choice(KINDS) for _ in range(extra)]
+    n = len(kinds)
+    c0 = rng.randrange(ncells)
+    c1 = (c0 + 1) % ncells
+    ops = [["fill", c0, 1, crowd]]
+    if big:
+        # hundreds of agents overall, spread over the space
+        for a in range(crowd + 1, n + 1):
+            ops.append(["set", a, rng.randrange(ncells)])
+    crowd_ids = list(range(1, crowd + 1))
+    rng.shuffle(crowd_ids)
+    victims = crowd_ids[:8]
+    ops += [["coll_view", "empties"], ["set", victims[0], c1], ["remove", victims[1]], ["set", victims[2], None], ["move_to", victims[3], c1],
+            ["move_rel", victims[4], _rand_dir(rng, sp, ncells, c0)], ["set", victims[0], c0], ["new", base], ["set", n + 1, c0],
+            ["rand_empty", False], ["set", victims[5], c0], ["remove", victims[6]], ["set", victims[2], c0]]
+    if not big:
+        ops += [["coll_select", "all", ["atleast", rng.choice([100, 128, 129, 256])], None], ["coll_rand_agent", "all"], ["probe"]]
+    # empty the crowded cell step by step across the threshold, then refill
+    ops += [["set", a, c1] for a in crowd_ids[8:8 + rng.randint(2, 6)]]
+    if rng.random() < 0.5:
+        ops += [["remove_all"], ["new", base], ["set", n + 2, c0], ["rand_empty", True]]
+    else:
+        ops += [["fill", c1, 1, crowd], ["fill", c0, 1, crowd // 2], ["set", victims[7], None]]
+    case = {"space": sp, "agents": kinds, "seed": rng.randrange(1000), "ops": ops, "scale": True}
+    if big:
+        case["nomodel"] = True
+    return case
+
+
 def gen_cases(rng, tier):
     cases = _corner_cases()
+    for k in range(5 if tier == "quick" else 60):
+        cases.append(_scale_case(rng, big=(k % 5 == 4)))
     n = 1000 if tier == "quick" else 20000
     for _ in range(n):
         cases.append(_rand_case(rng))
@@ -416,6 +480,12 @@ def enumerate_cases(tier, broken=False):
         {"type": "voronoi", "points": VORONOI_POINTS[0][:3], "caps": None},
         {"type": "vonneumann", "dims": [2, 1], "torus": False},
     ]
+    if broken:
+        import random as _r
+
+        srng = _r.Random(20260)
+        for k in range(40):
+            yield _scale_case(srng, big=(k % 4 == 3))
     kinds = ["cell", "fixed", "grid2d"]
     depth = 3 if tier == "thorough" else 2
     for sp0 in spaces:
@@ -453,10 +523,10 @@ _CAP_TAGS = {"true": True, "big": 10 ** 20}
 def _cap(v):
     """capacity value of a case: plain JSON values, or a tag for bool / huge / numpy values"""
     if isinstance(v, str):
-        if v == "npf2":
+        if v in ("npf2", "npi3"):
             import numpy as np
 
-            return np.float64(2.0)
+            return np.float64(2.0) if v == "npf2" else np.int64(3)     # numpy ints pass only where nothing validates (Network)
         return _CAP_TAGS[v]
     return v
 
@@ -710,19 +780,42 @@ def run_impl(case):
     def check_state(site, i, op):
         """the statement of C06 over the implementation's own state; first failing clause only"""
         lists = [ids_of(c.agents) for c in cells]
+        listed_in = {}
+        for j, l in enumerate(lists):
+            for b in l:
+                listed_in.setdefault(b, []).append(j)
+        occ_map = {}
+        for b, cj in loc.items():
+            if cj is not None:
+                occ_map.setdefault(cj, []).append(b)
+
+        def occupants(j):         # shadows the linear scan of the enclosing scope (same result, built once per check)
+            return occ_map.get(j, [])
+
+        class _Cnt:
+            def __init__(self, js):
+                self.js = js
+
+            def __getitem__(self, j):
+                return self.js.count(j)
+
+            def __iter__(self):
+                return iter([self.js.count(j) for j in set(self.js)])
+
         for a in range(1, len(agents) + 1):
             ag = agents[a - 1]
             if ag not in model.agents and kinds[a - 1] == "fixed":
                 continue            # a removed FixedAgent keeps its pointer by design
             c = ag.cell
             ci = cidx.get(id(c)) if c is not None else None
-            cnt = [l.count(a) for l in lists]
+            mine = listed_in.get(a, [])
+            cnt = _Cnt(mine)
             if ci is not None and cnt[ci] == 0:
                 return fail(f"C06/{site}/mirror-agent-not-listed", i,
                             f"after {op}: agent {a} reports cell {ci} but that cell lists {lists[ci]}")
             if any(k > 1 for k in cnt):
                 return fail(f"C06/{site}/mirror-listed-twice", i, f"after {op}: agent {a} is listed more than once: {lists}")
-            others = [j for j, k in enumerate(cnt) if k and j != ci]
+            others = sorted({j for j in mine if j != ci})
             if others:
                 return fail(f"C06/{site}/mirror-listed-elsewhere", i,
                             f"after {op}: agent {a} reports cell {ci} but is listed in cell(s) {others}")
@@ -767,8 +860,27 @@ def run_impl(case):
         raw = sorted(ids_of(space.all_cells.agents))
         if raw != exp:
             return fail(f"C06/{site}/agents", i, f"after {op}: all_cells.agents={raw}, the placed agents are {exp}")
+        # views that hold the cells' list OBJECTS: all_cells[cell] and the cached neighbourhoods
+        ac = space.all_cells
+        for j in sample_cells:
+            got = sorted(ids_of(ac[cells[j]]))
+            if got != sorted(occupants(j)):
+                return fail(f"C06/{site}/all_cells-item", i, f"after {op}: all_cells[cell {j}] lists {got}, the history puts {sorted(occupants(j))} there")
+        if not connections_edited[0]:
+            for j in sample_cells:
+                got = sorted(ids_of(cells[j].neighborhood.agents))
+                want = sorted(b for nb in neighbours[j] for b in occupants(nb))
+                if got != want:
+                    return fail(f"C06/{site}/neighborhood-agents", i,
+                                f"after {op}: cell {j}.neighborhood.agents = {got}, its neighbours {neighbours[j]} hold {want}")
         return None
 
+    # cells whose all_cells[...] entry and cached neighbourhood are compared (all of them on small spaces)
+    sample_cells = list(range(ncells)) if ncells <= 30 else sorted({0, 1, ncells // 2, ncells - 1} | {(seed * 7 + 13 * t) % ncells for t in range(8)})
+    neighbours = {j: sorted({cidx[id(t)] for t in cells[j].connections.values() if t is not cells[j]}) for j in sample_cells}
+    connections_edited = [False]
+    for j in sample_cells:
+        _ = cells[j].neighborhood          # built (and cached) now, before any agent is placed
     obs = []
     ops_out = []
     try:
@@ -887,6 +999,37 @@ def run_impl(case):
             poisoned[0] = True
             prev = cur
             return
+        if kind == "fill":
+            # scale: n placements in a row (rejections skipped), one observation at the end
+            c, a0, cnt_n = op[1], op[2], op[3]
+            if not (isinstance(c, int) and 0 <= c < ncells and isinstance(a0, int) and isinstance(cnt_n, int)):
+                obs.append([-2] + prev)
+                ops_out.append(["noop"])
+                return
+            okc = 0
+            for a in range(a0, a0 + cnt_n):
+                if not (1 <= a <= len(agents)):
+                    continue
+                fixed = kinds[a - 1] == "fixed"
+                expect_ok = (not full(c, a) or loc[a] == c) if not fixed else (loc[a] is None and a not in dangling and not full(c, a))
+                try:
+                    agents[a - 1].cell = cells[c]
+                    okc += 1
+                    loc[a] = c
+                except Exception as e:  # noqa: BLE001
+                    if expect_ok:
+                        fail("C06/cell-setter/unexpected-exception", i, f"fill: agent {a} into cell {c} raised {type(e).__name__}: {e}")
+                        poisoned[0] = True
+            cur = view()
+            obs.append([0, okc] + cur)
+            ops_out.append(["fill", c, a0, cnt_n])
+            if not poisoned[0]:
+                before = len(failures)
+                check_state("cell-setter", i, op)
+                if len(failures) > before:
+                    poisoned[0] = True
+            prev = cur
+            return
         if kind == "layer_query":
             # READ-ONLY calls of the neighbouring property-layer API on grids: they touch the same 'empty' layer and must
             # leave every C06 view unchanged (interaction of two public features)
@@ -967,6 +1110,8 @@ def run_impl(case):
                 obs.append([-2] + prev)
                 ops_out.append(["noop"])
                 return
+            if kind != "conn_query":
+                connections_edited[0] = True      # cached neighbourhoods are C07's business from here on
             try:
                 if kind == "connect":
                     cells[c].connect(cells[o2], _key_of(sp, [int(v) for v in op[3]]))
@@ -1087,7 +1232,7 @@ def run_impl(case):
         kind = op[0]
         op_m = list(op)
         if kind in ("new", "cell_add", "cell_remove", "coll_rand_cell", "coll_rand_agent", "coll_view", "coll_select", "connect",
-                    "disconnect", "conn_query", "layer_query"):
+                    "disconnect", "conn_query", "layer_query", "fill"):
             extra_op(i, op)
             continue
         a = op[1] if kind not in ("rand_empty", "remove_all") else None
@@ -1279,7 +1424,7 @@ def run_impl(case):
     try:
         if sp["type"] == "network":
             same = (list(space.G.nodes) == list(sp["graph"]["nodes"])
-                    and sorted(tuple(sorted(e)) for e in space.G.edges) == sorted(tuple(sorted(e)) for e in sp["graph"]["edges"]))
+                    and {tuple(sorted(e)) for e in space.G.edges} == {tuple(sorted(e)) for e in sp["graph"]["edges"]})
         elif sp["type"] == "voronoi":
             same = [list(p) for p in space.centroids_coordinates] == [list(p) for p in sp["points"]]
         else:
@@ -1289,7 +1434,10 @@ def run_impl(case):
                              "what": "the graph / point list / dimensions handed to the space were changed by the history"})
     except Exception as e:  # noqa: BLE001
         failures.append({"key": "C06/caller-arguments/mutated", "op": len(obs) - 1, "what": f"cannot re-read the constructor arguments: {e}"})
-    return {"obs": obs, "failures": failures, "ops_for_model": {"ops": ops_out, "static": static}}
+    out = {"obs": obs, "failures": failures, "ops_for_model": {"ops": ops_out, "static": static}}
+    if case.get("nomodel"):
+        out["model"] = False          # hundreds of cells: implementation + oracle only (the Gallina text would be dominated by the tables)
+    return out
 
 
 # ------------------------------------------------------------------ model side
@@ -1370,6 +1518,8 @@ def coq_case(case):
             else:
                 at = f"(AInt {L.z(int(am))})"
             ops.append(f"CollSelect {coll[op[1]]} {pt} {at}")
+        elif k == "fill":
+            ops.append(f"Fill {L.z(op[1])} {L.z(op[2])} {L.z(op[3])}")
         elif k == "connect":
             ops.append(f"Connect {L.z(op[1])} {L.z(op[2])} {L.zlist(op[3])}")
         elif k == "disconnect":
@@ -1380,7 +1530,15 @@ def coq_case(case):
             ops.append("Api (Remove 0)")
         else:
             ops.append(f"Api ({_api(op)})")
-    kinds = L.lst([{"cell": "KCell", "fixed": "KFixed", "grid2d": "KGrid2D"}[k] for k in all_kinds])
+    runs = []
+    for k in all_kinds:
+        g = {"cell": "KCell", "fixed": "KFixed", "grid2d": "KGrid2D"}[k]
+        if runs and runs[-1][0] == g:
+            runs[-1][1] += 1
+        else:
+            runs.append([g, 1])
+    kinds = " ++ ".join(f"repeat {g} {m}" if m > 3 else L.lst([g] * m) for g, m in runs) if runs else "[]"
+    kinds = f"({kinds})"
     caps = L.lst([_opt(c) for c in st["caps"]])
     frac = L.lst([L.b(f) for f in st.get("frac", [False] * len(st["caps"]))])
     conn = L.lst([L.pair(L.zlist(k), L.zlist(row)) for k, row in st["conn"]])
